@@ -25,8 +25,10 @@ struct Design {
     alpha: Vec<f64>,
     c: Vec<f64>,
     sigma: Vec<f64>,
-    /// weights = scale/sigma_i (None: unweighted, requires homoscedastic sigma)
+    /// weights = sign_i*scale/sigma_i (None: unweighted, requires homoscedastic sigma)
     wscale: Option<f64>,
+    /// the problem depends on the squares of the weights only: designs in the second half of the list use random signs
+    wsign: Vec<f64>,
 }
 
 fn designs(seed: u64, count: usize) -> Vec<Design> {
@@ -69,7 +71,8 @@ fn designs(seed: u64, count: usize) -> Vec<Design> {
             1 => Some(1.0),
             _ => Some(rng.logrange(0.2, 5.0)),
         };
-        out.push(Design { name: format!("{} N={} {}", ["F1 two decays + offset", "F2 Gaussian + decay + offset", "F3 decay + offset", "F4 sine + damped cosine of one frequency"][fam], n, ["homoscedastic unweighted", "w=1/sigma", "w=c/sigma"][mode]) + if i % 5 == 4 { " (noise 1e-9)" } else { "" }, mspec, alpha, c, sigma, wscale });
+        let wsign: Vec<f64> = (0..n).map(|_| if i >= 4 { rng.sign() } else { 1.0 }).collect();
+        out.push(Design { name: format!("{} N={} {}", ["F1 two decays + offset", "F2 Gaussian + decay + offset", "F3 decay + offset", "F4 sine + damped cosine of one frequency"][fam], n, ["homoscedastic unweighted", "w=1/sigma", "w=c/sigma"][mode]) + if i % 5 == 4 { " (noise 1e-9)" } else { "" }, mspec, alpha, c, sigma, wscale, wsign });
     }
     out
 }
@@ -92,7 +95,7 @@ fn realisation(d: &Design, rng: &mut Rng, t: &mut Tally) {
     let phi = d.mspec.phi64::<f64>(&d.alpha);
     let truth = phi.mul(&Mat::colvec(&d.c));
     let y = Mat::from_fn(n, 1, |i, _| truth.at(i, 0) + d.sigma[i] * rng.normal());
-    let w = d.wscale.map(|s| d.sigma.iter().map(|sg| s / sg).collect::<Vec<f64>>());
+    let w = d.wscale.map(|s| d.sigma.iter().zip(&d.wsign).map(|(sg, sn)| sn * s / sg).collect::<Vec<f64>>());
     let spec = ProblemSpec { model: ModelKind::Hand(d.mspec.clone()), alpha0: d.alpha.iter().map(|a| a * 1.01).collect(), y, w, eps: None, mrhs: false, par: false };
     let Ok(prob) = build_problem::<f64>(&spec, &SpyCtl::new()) else {
         t.failed += 1;
@@ -139,7 +142,7 @@ fn realisation(d: &Design, rng: &mut Rng, t: &mut Tally) {
 }
 
 pub fn run(ctx: &Ctx) {
-    ctx.rule("designs: F1 two decays + offset, F2 Gaussian peak + decay + offset, F3 decay + offset, F4 sin(wx) + exp(-ax)cos(wx) on 40 points (basis values, derivatives and whitened Jacobian rows of every sign pattern); F1-F3 on N in {10,14,30} points, coefficients in ±[1,4] (random signs from the fifth design on); noise Gaussian with sigma_i = 1e-4 (every fifth design: 1e-9) of the largest |coefficient| (homoscedastic, unweighted) or spread over a decade (weights 1/sigma_i, or c/sigma_i with c in [0.2,5]); per design K independent realisations (quick 30000 on 8 designs, thorough 1000000 on 12), each fitted with fit_with_statistics from a start 1% off; tallies: true curve inside the band per sample, true c_j and alpha_k inside the Student-t interval built from the reported variance (oracle's own quantile), p in {0.5, 0.683, 0.9, 0.99}; mean reduced chi2 (1 for w=1/sigma, c^2 for w=c/sigma). Verdict per tally: |frequency - p| <= 6·sqrt(p(1-p)/K) + 0.004. evaluations = fits; distinct = (design, realisation block)");
+    ctx.rule("designs: F1 two decays + offset, F2 Gaussian peak + decay + offset, F3 decay + offset, F4 sin(wx) + exp(-ax)cos(wx) on 40 points (basis values, derivatives and whitened Jacobian rows of every sign pattern); F1-F3 on N in {10,14,30} points, coefficients in ±[1,4] (random signs from the fifth design on); noise Gaussian with sigma_i = 1e-4 (every fifth design: 1e-9) of the largest |coefficient| (homoscedastic, unweighted) or spread over a decade (weights 1/sigma_i, or c/sigma_i with c in [0.2,5]; from the fifth design on each weight carries a random sign); per design K independent realisations (quick 30000 on 8 designs, thorough 1000000 on 12), each fitted with fit_with_statistics from a start 1% off; tallies: true curve inside the band per sample, true c_j and alpha_k inside the Student-t interval built from the reported variance (oracle's own quantile), p in {0.5, 0.683, 0.9, 0.99}; mean reduced chi2 (1 for w=1/sigma, c^2 for w=c/sigma). Verdict per tally: |frequency - p| <= 6·sqrt(p(1-p)/K) + 0.004. evaluations = fits; distinct = (design, realisation block)");
     ctx.assume("6-sigma binomial bounds over <= 1e3 tests per run give a false-alarm rate < 1e-5 per run; the 0.004 slack absorbs the O(noise) non-linearity bias and the library's quantile approximation; a pass says 'not distinguishable from calibrated at resolution ~0.01'");
     let t = ctx.tier;
     let nd = t.pick(8, 12);
